@@ -28,13 +28,15 @@ RULE = ("histories: every sequence up to length L1 over the 9-operation alphabet
         "on DictLoader; shorter bounds on FunctionLoader (uptodate = version check / None / always True / always "
         "False) and FileSystemLoader with os.utime-forced mtimes; layered loaders (FileSystemLoader with two search "
         "paths, ChoiceLoader of two DictLoaders) over {get, select, put / delete in layer 1 or layer 2}, where a "
-        "put into layer 1 shadows the template loaded from layer 2; histories in which env.auto_reload is switched on / off "
+        "put into layer 1 shadows the template loaded from layer 2 (also with names in sub directories and a first search path that do "
+        "not exist until the put); templates that are symbolic links whose target is modified / deleted; histories in which env.auto_reload is switched on / off "
         "between requests.  each get / select rotates through the entry points (get_template, "
         "get_or_select_template, select_template([name]), tuple of names) and optional arguments (globals=, parent=, str "
         "subclass as name).  distinct = (loader kind, auto_reload, size, history); non-trivial = a get/select "
         "follows a put or delete of a name that was loaded before.")
 
 NAMES = {1: "n1", 2: "n2", 3: "n3", 4: "n4"}
+NAMES_SUB = {1: "sub/n1", 2: "sub/n2", 3: "n3", 4: "deep/er/n4"}      # kind fs2d: names with directories that may not exist yet
 ALPHA_FULL = ["g:1", "g:2", "s:1,2", "s:2,1", "p:1:1", "p:1:2", "p:2:2", "d:1", "d:2"]
 ALPHA_RED = ["g:1", "g:2", "p:1:2", "p:1:1", "d:1", "s:2,1"]
 ALPHA_3 = ["g:1", "g:2", "g:3", "p:1:2", "d:1"]
@@ -58,6 +60,7 @@ class World:
         self.kind = kind
         self.state = dict(INIT)
         self.fsdir = fsdir
+        self.names = NAMES_SUB if kind == "fs2d" else NAMES         # the names templates are requested under
         if kind == "dict":
             self.mapping = {NAMES[n]: src(n, v) for n, v in self.state.items()}
             self.loader = jinja2.DictLoader(self.mapping)
@@ -67,15 +70,25 @@ class World:
             for n, v in self.state.items():
                 self._write(n, v)
             self.loader = jinja2.FileSystemLoader(fsdir)
-        elif kind in ("fs2", "choice"):
+        elif kind == "fslink":
+            # every template in the search path is a symbolic link to a file elsewhere; source changes hit the TARGET
+            self.ldir, self.tdir = os.path.join(fsdir + "L", "links"), os.path.join(fsdir + "L", "targets")
+            shutil.rmtree(fsdir + "L", ignore_errors=True)
+            os.makedirs(self.ldir)
+            os.makedirs(self.tdir)
+            for n, v in self.state.items():
+                self._write(n, v)
+            self.loader = jinja2.FileSystemLoader(self.ldir)
+        elif kind in ("fs2", "fs2d", "choice"):
             # two layers (search paths / member loaders); layer 1 shadows layer 2
             self.layers = [dict(), dict(INIT2)]
             self.state = dict(INIT2)
-            if kind == "fs2":
+            if kind in ("fs2", "fs2d"):
                 self.dirs = [os.path.join(fsdir + "2", "p1"), os.path.join(fsdir + "2", "p2")]
                 for d in self.dirs:
                     shutil.rmtree(d, ignore_errors=True)
-                    os.makedirs(d)
+                    if kind == "fs2" or d.endswith("p2"):
+                        os.makedirs(d)                 # fs2d: the first search path does not exist until something is put there
                 for n, v in self.layers[1].items():
                     self._write_at(1, n, v)
                 self.loader = jinja2.FileSystemLoader(self.dirs)
@@ -99,7 +112,8 @@ class World:
             self.loader = jinja2.FunctionLoader(load_func)
 
     def _write_at(self, layer, n, v):
-        p = os.path.join(self.dirs[layer], NAMES[n])
+        p = os.path.join(self.dirs[layer], self.names[n])
+        os.makedirs(os.path.dirname(p), exist_ok=True)
         with open(p, "w") as f:
             f.write(src(n, v))
         os.utime(p, (MT0 + 1000 * v, MT0 + 1000 * v))
@@ -110,10 +124,10 @@ class World:
             self.layers[layer].pop(n, None)
         else:
             self.layers[layer][n] = v
-        if self.kind == "fs2":
+        if self.kind in ("fs2", "fs2d"):
             if v is None:
                 try:
-                    os.unlink(os.path.join(self.dirs[layer], NAMES[n]))
+                    os.unlink(os.path.join(self.dirs[layer], self.names[n]))
                 except FileNotFoundError:
                     pass
             else:
@@ -131,7 +145,13 @@ class World:
         return eff
 
     def _write(self, n, v):
-        p = os.path.join(self.fsdir, NAMES[n])
+        if self.kind == "fslink":
+            p = os.path.join(self.tdir, NAMES[n])
+            link = os.path.join(self.ldir, NAMES[n])
+            if not os.path.islink(link):
+                os.symlink(os.path.join("..", "targets", NAMES[n]), link)
+        else:
+            p = os.path.join(self.fsdir, NAMES[n])
         with open(p, "w") as f:
             f.write(src(n, v))
         os.utime(p, (MT0 + 1000 * v, MT0 + 1000 * v))
@@ -140,21 +160,21 @@ class World:
         self.state[n] = v
         if self.kind == "dict":
             self.mapping[NAMES[n]] = src(n, v)
-        elif self.kind == "fs":
+        elif self.kind in ("fs", "fslink"):
             self._write(n, v)
 
     def delete(self, n):
         self.state.pop(n, None)
         if self.kind == "dict":
             self.mapping.pop(NAMES[n], None)
-        elif self.kind == "fs":
+        elif self.kind in ("fs", "fslink"):
             try:
-                os.unlink(os.path.join(self.fsdir, NAMES[n]))
+                os.unlink(os.path.join(self.tdir if self.kind == "fslink" else self.fsdir, NAMES[n]))     # fslink: the link dangles
             except FileNotFoundError:
                 pass
 
 
-UPT = {"dict": "V", "fs": "V", "funcV": "V", "funcN": "N", "funcT": "T", "funcF": "F", "fs2": "V", "choice": "V"}
+UPT = {"dict": "V", "fs": "V", "funcV": "V", "funcN": "N", "funcT": "T", "funcF": "F", "fs2": "V", "fs2d": "V", "fslink": "V", "choice": "V"}
 
 
 class StrSub(str):
@@ -230,9 +250,9 @@ def real_run(jinja2, kind, ar, size, ops, fsdir=None):
         flip += 1
         try:
             if p[0] == "g":
-                t = call_get(env, NAMES[names[0]], flip)
+                t = call_get(env, w.names[names[0]], flip)
             else:
-                t = call_select(env, [NAMES[n] for n in names], flip)
+                t = call_select(env, [w.names[n] for n in names], flip)
             text = t.render()
         except jinja2.TemplateNotFound:          # TemplatesNotFound is a subclass
             t, text = None, None
@@ -343,11 +363,11 @@ def shadowing(ops):
 
 
 def line(kind, ar, size, ops):
-    if kind in ("fs2", "choice"):
+    if kind in ("fs2", "fs2d", "choice"):
         # the layered model (Model/TcLay.v): layer 1 empty, layer 2 = INIT2; closure of the FileSystemLoader (after fix
         # 3f4facf) resp. of the serving ChoiceLoader member
         init = " ".join(f"2 {n} {v}" for n, v in INIT2.items())
-        return f"Y {ar} {'F' if kind == 'fs2' else 'C'} {size} 2 {len(INIT2)} {init} " + " ".join(ops)
+        return f"Y {ar} {'C' if kind == 'choice' else 'F'} {size} 2 {len(INIT2)} {init} " + " ".join(ops)
     init = " ".join(f"{n} {v}" for n, v in INIT.items())
     return f"{ar} {UPT[kind]} {size} {len(INIT)} {init} " + " ".join(ops)
 
@@ -434,10 +454,14 @@ def run(ctx):
             cases.append((kind, ar, size, h))
     # layered loaders: FileSystemLoader with two search paths, ChoiceLoader of two DictLoaders; layer 1 shadows layer 2
     lay_h = list(histories(ALPHA_LAY, 0, L1))
-    for kind in ("fs2", "choice"):
-        for size, ar in ((-1, 1), (1, 1), (-1, 0)):
+    for kind in ("fs2", "choice", "fs2d"):
+        for size, ar in ((-1, 1), (1, 1), (-1, 0)) if kind != "fs2d" else ((-1, 1), (2, 1)):
             for h in lay_h:
                 cases.append((kind, ar, size, h))
+    # templates that are symbolic links: the source changes in the link's target
+    for size, ar in ((-1, 1), (1, 1)):
+        for h in histories(ALPHA_RED, 0, L1 - 1):
+            cases.append(("fslink", ar, size, h))
     # random longer histories on every kind
     for _ in range(ctx.size(1500, 20000)):
         kind = ctx.rng.choice(["dict", "fs", "funcV", "funcN", "funcT", "funcF"])
